@@ -114,14 +114,18 @@ Section Incr.
   Hypothesis Hm : (0 < mult c)%Q.
   Hypothesis Hmax : 0 <= max_interval c.
 
+  Lemma num_pos : 0 < Qnum (mult c).
+  Proof. destruct (mult c) as [n d]. unfold Qlt in Hm. cbn in *. lia. Qed.
+
   Lemma incr_unfold cur :
     incr_interval c cur =
     if max_interval c * Zpos (Qden (mult c)) <=? cur * Qnum (mult c)
     then max_interval c else Z.quot (cur * Qnum (mult c)) (Zpos (Qden (mult c))).
-  Proof. unfold incr_interval, Qtrunc. destruct (mult c) as [n d]. reflexivity. Qed.
+  Proof.
+    unfold incr_interval, capped, Qtrunc. pose proof num_pos as Hn.
+    apply Z.compare_gt_iff in Hn. rewrite Hn. destruct (mult c) as [n d]. reflexivity.
+  Qed.
 
-  Lemma num_pos : 0 < Qnum (mult c).
-  Proof. destruct (mult c) as [n d]. unfold Qlt in Hm. cbn in *. lia. Qed.
 
   Lemma incr_nonneg cur : 0 <= cur -> 0 <= incr_interval c cur.
   Proof.
